@@ -19,6 +19,8 @@ MUTANTS = [
     ("C03", "processor/trigger_handler.py", 'if event in ["line", "return", "exception"] and self._callbacks.is_set:', 'if event in ["line", "return"] and self._callbacks.is_set:'),
     ("C03", "processor/trigger_handler.py", "filename = os.path.basename(frame.f_code.co_filename)", "filename = frame.f_code.co_filename"),
     ("C03", "processor/trigger_handler.py", "        if len(actions) == 0:\n            return self.trace_call\n", "        if len(actions) == 0:\n            return None\n"),
+    ("C05", "processor/bfs/__init__.py", "            child._depth = self._depth + 1\n", "            child._depth = self._depth\n"),
+    ("C05", "processor/bfs/__init__.py", "            self._children.append(child)\n", "            self._children.insert(0, child)\n"),
     ("C05", "processor/variable_processor.py", "return string[:max_length], len(string) > max_length", "return string[:max_length], len(string) >= max_length"),
     ("C05", "processor/variable_set_processor.py", "if self.__var_cache.size > self.__config.max_variables:", "if self.__var_cache.size >= self.__config.max_variables:"),
     ("C05", "processor/bfs/__init__.py", "pop = queue.pop(0)", "pop = queue.pop()"),
